@@ -20,7 +20,7 @@ RULE = ("systematic sweep: for every public data operation (single- and multi-ke
         "EINTR, 1-3 servers for HashClient with clock advances. Oracle (from the fake network's log): every byte a "
         "call receives was sent in answer to that call's own commands (reply tags); no recv that can never be "
         "satisfied; no reply left unread on a connection that stays open; the follow-up store and fetch return the "
-        "right answers. Non-trivial: a fault actually fired (taken from the log) and a later call used the object.")
+        "right answers. Non-trivial: a fault actually fired (taken from the log) and a later call used the object. The operation library also spells noreply / default_noreply as non-bool values (1, 'yes', 2, 1.0 / 0, '', 'no' is truthy), judged by their truth value.")
 MANIFEST = {
     "category": "fault_enumeration",
     "technique": "systematic single-fault enumeration at every socket event and every server reply of every operation (positions taken from a fault-free dry run) + Hypothesis multi-fault histories; reply-ownership oracle over a tagged fake connection",
